@@ -3,7 +3,11 @@
      linear_operator/operators/added_diag_linear_operator.py
         (_preconditioner, _init_cache, _init_cache_for_constant_diag, _init_cache_for_non_constant_diag,
          precondition_closure, _precond_lt, _precond_logdet_cache)
-     linear_operator/operators/_linear_operator.py     (pivoted_cholesky: the thin wrapper)
+     linear_operator/operators/_linear_operator.py     (pivoted_cholesky: the thin wrapper; _preconditioner and
+                                                        _solve_preconditioner: the fall-back routing)
+     linear_operator/utils/permutation.py               (apply_permutation, inverse_permutation; the row fetch of
+                                                        the loop body goes through apply_permutation [pc_row];
+                                                        the two index steps of PivotedCholesky.backward)
 
    Definitions only.  Everything is polymorphic in an arithmetic record [Arith F]; the same terms are
    (i) executed on PrimFloat (binary64) by the correspondence shards (Check.v) and (ii) reasoned about
@@ -30,6 +34,16 @@ From mathcomp Require Import ssreflect ssrfun ssrbool eqtype ssrnat seq.
 Set Implicit Arguments.
 Unset Strict Implicit.
 Unset Printing Implicit Defensive.
+
+(* ------------------------------------------------------------------------------------------ *)
+(* linear_operator/utils/permutation.py, one batch member (the batch index vectors batch_idx make
+   every member use its own permutation vector: members are independent) *)
+
+(* inverse_permutation(permutation):
+     arange = torch.arange(permutation.size(-1))
+     res = torch.zeros_like(permutation).scatter_(-1, permutation, arange.expand_as(permutation)) *)
+Definition inverse_permutation (perm : seq nat) : seq nat :=
+  foldl (fun acc iv => set_nth 0 acc iv.1 iv.2) (nseq (size perm) 0) (zip perm (iota 0 (size perm))).
 
 Record Arith (F : Type) := MkArith {
   a0 : F; a1 : F;
@@ -72,6 +86,34 @@ Definition maxl (vs : seq F) : F := (argmax vs).1.                      (* torch
 Definition scatter (v : vec) (idx : seq nat) (vals : seq F) : vec :=
   foldl (fun acc iv => set_nth (a0 A) acc iv.1 iv.2) v (zip idx vals).
 
+(* apply_permutation(matrix, left_permutation, right_permutation) on an (nr x nc) member:
+     None, None           -> to_dense(matrix)
+     a missing side       -> torch.arange(matrix.size(-2)) resp. torch.arange(matrix.size(-1))
+     result               =  to_dense(matrix[*batch_idx, left.unsqueeze(-1), right.unsqueeze(-2)])
+                             i.e. result[i, j] = matrix[left[i], right[j]]  (partial permutations allowed) *)
+Definition apply_permutation (nr nc : nat) (M : mat) (left right : option (seq nat)) : mat :=
+  match left, right with
+  | None, None => mtab nr nc (get M)
+  | _, _ =>
+      let l := if left is Some l then l else iota 0 nr in
+      let r := if right is Some r then r else iota 0 nc in
+      map (fun i => map (fun j => get M i j) r) l
+  end.
+
+(* row = apply_permutation(matrix, pi_m.unsqueeze(-1), right_permutation=None).squeeze(-2) *)
+Definition pc_row (n : nat) (K : mat) (pi_m : nat) : vec :=
+  nth [::] (apply_permutation n n K (Some [:: pi_m]) None) 0.
+
+(* PivotedCholesky.backward re-computes the forward result differentiably:
+     Krows = apply_permutation(matrix, full_permutation, short_permutation)      (n x m)
+     L = psd_safe_cholesky(Krows[:m, :]) ; res_pivoted = cat([L, solve_triangular(L, Krows[m:, :].mT).mT])
+     res = apply_permutation(res_pivoted, left_permutation=inverse_permutation(full_permutation), None)
+   the two index steps (Cholesky / triangular solve are characterised in the theorems): *)
+Definition backward_Krows (n m : nat) (K : mat) (perm : seq nat) : mat :=
+  apply_permutation n n K (Some perm) (Some (take m perm)).
+Definition backward_unpermute (n m : nat) (res_pivoted : mat) (perm : seq nat) : mat :=
+  apply_permutation n m res_pivoted (Some (inverse_permutation perm)) None.
+
 (* ------------------------------------------------------------------------------------------ *)
 (* PivotedCholesky.forward — per batch member state                                            *)
 Record pc_state := MkPc {
@@ -105,13 +147,14 @@ Definition pc_step (n : nat) (K : mat) (orig : F) (m : nat) (s : pc_state) : pc_
   if m.+1 < n then
     let pi_i := drop m.+1 perm in
     let piv := vget L_m pi_m in                                     (* L_m.gather(-1, pi_m) *)
-    (* row = apply_permutation(matrix, pi_m)  ->  row[i] = K[pi_m, i] ;
+    (* row = apply_permutation(matrix, pi_m.unsqueeze(-1), right_permutation=None).squeeze(-2) ;
        L_m_new = row.gather(-1, pi_i) ; if m > 0: L_m_new -= sum_j L[j, pi_m] * L[j, pi_i] ;
        L_m_new /= piv *)
+    let row := pc_row n K pi_m in
     let newf := fun i =>
       adiv A (if 0 < m
-              then asub A (get K pi_m i) (sumn_ (fun j => amul A (get L j pi_m) (get L j i)) m)
-              else get K pi_m i) piv in
+              then asub A (vget row i) (sumn_ (fun j => amul A (get L j pi_m) (get L j i)) m)
+              else vget row i) piv in
     let L_m_new := map newf pi_i in
     let L_m' := scatter L_m pi_i L_m_new in
     (* matrix_diag.scatter_(-1, pi_i, matrix_diag.gather(-1, pi_i) - L_m_new**2) *)
@@ -292,4 +335,17 @@ Definition preconditioner (st : settings) (n : nat) (Ks : seq mat) (Ds : seq vec
     end.
 
 End Precond.
+
+(* LinearOperator._solve_preconditioner:
+     base_precond, _, _ = self._preconditioner()
+     if base_precond is not None: return base_precond
+     elif beta_features.default_preconditioner.on(): return <randomized-SVD preconditioner>
+     else: return None
+   (LinearOperator._preconditioner itself returns (None, None, None); AddedDiagLinearOperator with a
+   preconditioner_override returns override(self) before looking at any setting) *)
+Definition solve_preconditioner (T : Type) (base : option T) (beta_default : bool) (default : T) : option T :=
+  if base is Some p then Some p else if beta_default then Some default else None.
+Definition added_diag_preconditioner (T : Type) (override : option T) (own : T) : T :=
+  if override is Some p then p else own.
+
 End Model.
